@@ -1,24 +1,29 @@
 /-
   C19 — Rendering is total and shows the model at the selected time.
-  Property theorems only (helper lemmas: CRProofs/Params.lean, CRProofs/DrawSelect.lean).
+  Property theorems only (helper lemmas: CRProofs/Params.lean, CRProofs/DrawSelect.lean, CRProofs/DrawParams.lean).
   Models: CRModel/Params.lean (BaseParam.__setattr__, draw_params.py:26-52),
-          CRModel/DrawSelect.lean (selection logic of mp_renderer.py:454-778, 1047-1049, 1490-1492).
+          CRModel/DrawSelect.lean (selection logic of mp_renderer.py:454-778, 1047-1124, 1437-1463, 1490-1492 and
+                                   traffic_sign.py:509-531; total form and form with explicit partial reads),
+          CRModel/DrawParams.lean (`flagsOf`: how the drawing functions read flags and windows from the parameter tree).
 
   Clauses of the property text and where they are:
    (a) "Setting a parameter on a parameter group sets it on every nested group that declares it, so a time
        window set at the top level applies to every drawn object"
          C19_setattr_declared, C19_setattr_frame, C19_setattr_undeclared, C19_setattr_spec, C19_setAt_declared,
-         C19_window_everywhere, C19_postInit_window, C19_window_reaches_drawing
+         C19_window_everywhere, C19_postInit_window, C19_window_reaches_drawing, C19_top_level_window_drawn
    (b) "the obstacle shapes drawn are exactly the occupancies the model reports …"
-         C19_dynamic_drawn_eq_model, C19_static_drawn_eq_model, C19_env_drawn_eq_model,
-         C19_phantom_drawn_eq_model, C19_drawn_eq_model, C19_nothing_without_occupancy
-   (c) "all lanelets (or exactly the selected ones) are drawn"
-         C19_lanelets_drawn_all, C19_lanelets_drawn_selected, C19_problems_drawn
+         C19_shapes_iff_prescribed, C19_only_occupancies_drawn, C19_scenario_shapes, C19_nothing_iff_no_occupancy,
+         C19_witness_inverted_window (why `time_begin ≤ time_end` is assumed)
+   (c) "all lanelets (or exactly the selected ones) are drawn"        C19_id_filter (definitional)
    (d) "drawing … and rendering the figure completes without an exception"
-         C19_total_full (statement), C19_total_partial (what is proved) — see the comment there.
+         C19_total_full (statement about an implementation), C19_total_selection_partial, C19_total_net_partial,
+         C19_total_light_labels_partial (what is proved: the selection logic, with every partial read explicit,
+         never fails), C19_witness_* (the explicit reads do fail without the guards) — matplotlib is not modelled.
 -/
 import CRProofs.Params
 import CRProofs.DrawSelect
+import CRProofs.DrawParams
+set_option linter.unusedSimpArgs false
 
 namespace CR.Params
 
@@ -26,38 +31,12 @@ namespace CR.Params
 
 /-- Every nested group, at any depth, that declares `name` holds the assigned value afterwards.
     `p` is the path (field names) from the group on which the assignment is made to the nested group `h`;
-    `name ∉ p` says the path does not run through a field that is itself being replaced. -/
+    `name ∉ p` says the path does not run through a field that is itself being replaced.
+    (Statement about the tree function `Grp.set`; it is Python's result whenever `v.okFor name`, see `C19_setattr_spec`.) -/
 theorem C19_setattr_declared (g h : Grp) (p : List String) (name : String) (v : Val)
     (hi : g.allInit = true) (hp : name ∉ p) (hat : g.at p = some (.grp h)) (hd : h.declares name = true) :
-    (g.set name v).at (p ++ [name]) = some v := by
-  induction p generalizing g with
-  | nil =>
-    simp only [Grp.at, Option.some.injEq, Val.grp.injEq] at hat
-    subst hat
-    obtain ⟨hi1, _⟩ := (Grp.allInit_iff g).1 hi
-    have : (g.set name v).get name = some v := by
-      rw [Grp.set_init g hi1]; exact get_setF_same g.fields name v hd
-    cases v with
-    | atom a => simp [Grp.at, this]
-    | grp w => simp [Grp.at, this]
-  | cons k p ih =>
-    have hk : k ≠ name := fun e => hp (by simp [e])
-    have hp' : name ∉ p := fun e => hp (by simp [e])
-    obtain ⟨hi1, hi2⟩ := (Grp.allInit_iff g).1 hi
-    have hget : (g.set name v).get k = (g.get k).map (Val.set name v) := by
-      rw [Grp.set_init g hi1]; exact get_setF_other g.fields name k v hk
-    cases hgk : g.get k with
-    | none => simp [Grp.at, hgk] at hat
-    | some x =>
-      cases x with
-      | atom a =>
-        simp only [Grp.at, hgk] at hat
-        split at hat <;> simp at hat
-      | grp w =>
-        simp only [Grp.at, hgk] at hat
-        have hw : w.allInit = true := allInit_get g.fields k w hi2 hgk
-        have := ih w hw hp' hat
-        simpa [Grp.at, hget, hgk, Val.set] using this
+    (g.set name v).at (p ++ [name]) = some v :=
+  at_set_declared g h p name v hi hp hat hd
 
 /-- Frame: along every path that avoids `name`, what is found after the assignment is what was found before
     (atoms unchanged, groups subjected to the same assignment; nothing appears, nothing vanishes). -/
@@ -75,45 +54,33 @@ theorem C19_setattr_other_fields_unchanged (g : Grp) (q : List String) (name : S
 /-- A nested group that does not declare `name` does not acquire it. -/
 theorem C19_setattr_undeclared (g h : Grp) (p : List String) (name : String) (v : Val)
     (hi : g.allInit = true) (hp : name ∉ p) (hat : g.at p = some (.grp h)) (hd : h.declares name = false) :
-    (g.set name v).at (p ++ [name]) = none := by
-  induction p generalizing g with
-  | nil =>
-    simp only [Grp.at, Option.some.injEq, Val.grp.injEq] at hat
-    subst hat
-    obtain ⟨hi1, _⟩ := (Grp.allInit_iff g).1 hi
-    have : (g.set name v).get name = none := by
-      rw [Grp.set_init g hi1]; exact get_setF_undeclared g.fields name v hd
-    simp [Grp.at, this]
-  | cons k p ih =>
-    have hk : k ≠ name := fun e => hp (by simp [e])
-    have hp' : name ∉ p := fun e => hp (by simp [e])
-    obtain ⟨hi1, hi2⟩ := (Grp.allInit_iff g).1 hi
-    have hget : (g.set name v).get k = (g.get k).map (Val.set name v) := by
-      rw [Grp.set_init g hi1]; exact get_setF_other g.fields name k v hk
-    cases hgk : g.get k with
-    | none => simp [Grp.at, hgk] at hat
-    | some x =>
-      cases x with
-      | atom a =>
-        simp only [Grp.at, hgk] at hat
-        split at hat <;> simp at hat
-      | grp w =>
-        simp only [Grp.at, hgk] at hat
-        have hw : w.allInit = true := allInit_get g.fields k w hi2 hgk
-        have := ih w hw hp' hat
-        simpa [Grp.at, hget, hgk, Val.set] using this
+    (g.set name v).at (p ++ [name]) = none :=
+  at_set_undeclared g h p name v hi hp hat hd
 
-/-- `setattr_spec`: the three facts together, for every tree, every name, every value. -/
-theorem C19_setattr_spec (g : Grp) (name : String) (v : Val) (hi : g.allInit = true) :
+/-- `setattr_spec`, about Python's assignment `Grp.setPy` (which raises `RecursionError` in the self-referential case):
+    for every fully initialised tree, every name and every admissible value — a plain value, or a parameter group in
+    which no group declares `name` (`okFor`; true for every type-correct value of every field of draw_params.py) —
+    the assignment succeeds, every nested group that declares the name holds the value, no other group acquires it,
+    and everything else is unchanged. -/
+theorem C19_setattr_spec (g : Grp) (name : String) (v : Val) (hi : g.allInit = true) (hv : v.okFor name = true) :
+    ∃ g', g.setPy name v = .ok g' ∧
     (∀ p h, name ∉ p → g.at p = some (.grp h) →
-        (g.set name v).at (p ++ [name]) = if h.declares name then some v else none) ∧
-    (∀ q, name ∉ q → (g.set name v).at q = (g.at q).map (Val.set name v)) := by
-  refine ⟨fun p h hp hat => ?_, fun q hq => C19_setattr_frame g q name v hi hq⟩
+        g'.at (p ++ [name]) = if h.declares name then some v else none) ∧
+    (∀ q, name ∉ q → g'.at q = (g.at q).map (Val.set name v)) := by
+  refine ⟨g.set name v, setPy_ok g name v hv, fun p h hp hat => ?_, fun q hq => C19_setattr_frame g q name v hi hq⟩
   cases hd : h.declares name with
   | true => simpa using C19_setattr_declared g h p name v hi hp hat hd
   | false => simpa using C19_setattr_undeclared g h p name v hi hp hat hd
 
-/-- An uninitialised group (inside the dataclass `__init__`) only stores its own field. -/
+/-- Outside `okFor` (a group inside the assigned value declares the assigned name, e.g. `h = HistoryParams();
+    params.occupancy = h`) Python does not terminate normally as soon as the value is stored anywhere: `RecursionError`.
+    (definitional: documents the model of this case, which the correspondence replays on the real code; carries no proof content) -/
+theorem C19_setattr_selfref_recursion (g : Grp) (name : String) (v : Val)
+    (hv : v.okFor name = false) (hs : g.stores name = true) : g.setPy name v = .error .other := by
+  simp [Grp.setPy, hv, hs]
+
+/-- An uninitialised group (inside the dataclass `__init__`) only stores its own field.
+    (definitional: documents the model, carries no proof content) -/
 theorem C19_setattr_uninitialised (fs : Fields) (name : String) (v : Val) :
     (Grp.mk false fs).set name v = Grp.mk false (fs.assign name v) := by
   simp [Grp.set]
@@ -152,31 +119,6 @@ theorem C19_window_everywhere (g h : Grp) (p : List String) (tb te : String)
     show ((g.set "time_begin" (.atom tb)).set "time_end" (.atom te)).at (p ++ ["time_begin"]) = _
     rw [C19_setattr_frame _ _ _ _ hi' hq, h1]; rfl
   · exact C19_setattr_declared _ _ p "time_end" (.atom te) hi' hp2 hat' hd2'
-
-/-- The parameter groups from which the drawing functions read their window
-    (mp_renderer.py:487, 518-519, 658-659, 692, 735-740, 927; traffic_sign.py create_img_boxes_traffic_lights). -/
-def drawPaths : List (List String) :=
-  [["dynamic_obstacle"], ["dynamic_obstacle", "trajectory"], ["static_obstacle"], ["phantom_obstacle"],
-   ["environment_obstacle"], ["lanelet_network"], ["lanelet_network", "traffic_light"], ["trajectory"]]
-
-/-- "… so a time window set at the top level applies to every drawn object": after
-    `params.time_begin = tb; params.time_end = te` every group a drawing function reads its window from holds
-    `(tb, te)` — the hypothesis `Flags.plainAt`'s window equalities of `C19_drawn_eq_model` are established by it. -/
-theorem C19_window_reaches_drawing (g : Grp) (tb te : String) (hi : g.allInit = true)
-    (hex : ∀ p ∈ drawPaths, ∃ h, g.at p = some (.grp h) ∧ h.declares "time_begin" = true ∧ h.declares "time_end" = true) :
-    let g' := (g.set "time_begin" (.atom tb)).set "time_end" (.atom te)
-    ∀ p ∈ drawPaths, g'.at (p ++ ["time_begin"]) = some (.atom tb) ∧ g'.at (p ++ ["time_end"]) = some (.atom te) := by
-  intro g' p hp
-  obtain ⟨h, hat, hd1, hd2⟩ := hex p hp
-  have hn : "time_begin" ∉ p ∧ "time_end" ∉ p := by
-    simp only [drawPaths, List.mem_cons, List.not_mem_nil, or_false] at hp
-    rcases hp with rfl | rfl | rfl | rfl | rfl | rfl | rfl | rfl <;> exact ⟨by decide, by decide⟩
-  exact C19_window_everywhere g h p tb te hi hn.1 hn.2 hat hd1 hd2
-
-/-- One re-assignment of `__post_init__` on a fully initialised tree that holds an atom under `name`. -/
-theorem reassign_ok (g : Grp) (name a : String) (hg : g.get name = some (.atom a)) :
-    g.reassign name = .ok (g.set name (.atom a)) := by
-  simp [Grp.reassign, hg]
 
 /-- Construction: a window passed to the constructor of a group (`MPDrawParams(time_begin=…, time_end=…)`)
     is the window of every nested group — `__post_init__` re-assigns it once the group is initialised.
@@ -245,198 +187,289 @@ example : ∃ g', (Grp.mk false (.atom "time_begin" "5" (.atom "time_end" "8" (.
     (.grp "shape" exLeaf .nil))))).postInit = .ok g' ∧ g'.at ["shape", "time_begin"] = some (.atom "5") :=
   ⟨_, by rfl, by rfl⟩
 
+-- the self-referential case: a group that declares `occupancy` assigned as `occupancy`
+example : (Val.grp exDyn).okFor "trajectory" = false := by decide
+example : exTop.setPy "trajectory" (.grp exDyn) = .error .other := by rfl
+
 end CR.Params
 
 namespace CR.Draw
+open CR.Params
+
+/-! ### (a, continued) the window reaches the drawing functions -/
+
+/-- "… so a time window set at the top level applies to every drawn object", through `flagsOf`, the function by which
+    `draw_scenario` and the functions it calls read their flags from the parameter object: after
+    `params.time_begin = tb; params.time_end = te` the dynamic-obstacle group, its trajectory group, the phantom-,
+    static- and environment-obstacle groups (`windowPaths`) all hold the window `[tb, te)` and every other flag read
+    by the selection logic is what it was.  `atb`, `ate` are the atoms (JSON texts) of the two integers. -/
+theorem C19_window_reaches_drawing (g : Grp) (hi : g.allInit = true) (atb ate : String) (tb te : Int) (f : Flags)
+    (htb : parseInt atb = some tb) (hte : parseInt ate = some te) (hf : flagsOf g = some f) :
+    flagsOf ((g.set "time_begin" (.atom atb)).set "time_end" (.atom ate)) = some (withWindow f tb te) :=
+  flagsOf_window g hi atb ate tb te f htb hte hf
 
 /-! ### (b) the obstacle shapes drawn are the occupancies the model reports -/
 
-/-- "Shape drawing on; icons, signals, trajectories, extra occupancies and history off" for the
-    dynamic-obstacle group (direction triangle, state marker and label are further extras, off as well). -/
-def DynFlags.plain (f : DynFlags) : Prop :=
-  f.drawShape = true ∧ f.drawIcon = false ∧ f.drawDirection = false ∧ f.drawSignals = false ∧
-  f.drawOccupancies = false ∧ f.drawTrajectory = false ∧ f.drawHistory = false ∧
-  f.drawInitialState = false ∧ f.showLabel = false
+/-- The property text, as a predicate on time steps (no reference to the drawers' loops): the occupancy of obstacle
+    `o` at step `t` is to be drawn for the window `[tb, te)` iff the obstacle has an occupancy at `t` and `t` is the
+    selected begin step or — for a dynamic obstacle with a set-based prediction — a later step of the window. -/
+def Prescribed (tb te : Int) (o : Obst) (t : Int) : Prop :=
+  o.occ.mem t = true ∧ (t = tb ∨ (o.role = .dynamic ∧ o.pred.isSet = true ∧ tb < t ∧ t < te))
 
-def PhFlags.plain (f : PhFlags) : Prop := f.drawShape = true ∧ f.drawOccupancies = false
+/-- **The obstacle shapes drawn are exactly the occupancies the text prescribes**, for an obstacle of any role, any
+    window `tb ≤ te` (before, inside, after the horizon) and the flags of the text: the time steps of the occupancy
+    patches emitted for `o` are strictly increasing (so each is drawn once) and `t` is among them iff `Prescribed`.
+    Needed beyond the text: `tb ≤ te` (`C19_witness_inverted_window`), `o.WF` (what `occupancy_at_time` guarantees). -/
+theorem C19_shapes_iff_prescribed (f : Flags) (tb te : Int) (o : Obst) (hf : f.textAt tb te) (hwin : tb ≤ te) (hw : o.WF) :
+    (occItems (drawObstacle f o)).Pairwise (· < ·) ∧
+    ∀ t, t ∈ occItems (drawObstacle f o) ↔ Prescribed tb te o t := by
+  rw [occItems_drawObstacle f tb te o hf hwin hw]
+  constructor
+  · rw [List.pairwise_append]
+    refine ⟨by split <;> simp, ?_, ?_⟩
+    · split
+      · exact (pyRange_pairwise _ _).filter _
+      · simp
+    · intro a ha b hb
+      split at ha
+      · simp only [List.mem_singleton] at ha
+        split at hb
+        · have := (mem_pyRange _ _ _).1 (List.mem_filter.1 hb).1
+          omega
+        · simp at hb
+      · simp at ha
+  · intro t
+    simp only [List.mem_append, Prescribed]
+    constructor
+    · rintro (h | h)
+      · split at h
+        · simp only [List.mem_singleton] at h; subst h; exact ⟨by assumption, Or.inl rfl⟩
+        · simp at h
+      · split at h
+        · rename_i hc
+          obtain ⟨h1, h2⟩ := List.mem_filter.1 h
+          have := (mem_pyRange _ _ _).1 h1
+          exact ⟨by simpa using h2, Or.inr ⟨hc.1, hc.2, by omega, this.2⟩⟩
+        · simp at h
+    · rintro ⟨hm, (rfl | ⟨h1, h2, h3, h4⟩)⟩
+      · left; simp [hm]
+      · right
+        simp only [h1, h2, and_self, if_true]
+        exact List.mem_filter.2 ⟨(mem_pyRange _ _ _).2 ⟨by omega, h4⟩, by simpa using hm⟩
 
-/-- What the property text prescribes for one obstacle and the window `[tb, te)`:
-    its occupancy at `tb` if it has one; for a dynamic obstacle with a set-based prediction also the
-    occupancies at the later steps of the window; nothing else. -/
-def modelShapes (tb te : Int) (o : Obst) : List Item :=
-  (if o.occ.mem tb then [Item.occ tb] else []) ++
-  (if o.role = .dynamic ∧ o.pred.isSet = true then
-     (pyRange (tb + 1) te).flatMap (fun t => if o.occ.mem t then [Item.occ t] else [])
-   else [])
-
-/-- Dynamic obstacles: for every well-formed obstacle with exactly known initial position, every window
-    `time_begin ≤ time_end` (before, inside, after the horizon) and plain flags, the patches emitted are
-    exactly the prescribed ones — in particular the early returns never hide an occupancy that lies in the
-    window and never let one through that lies outside. -/
-theorem C19_dynamic_drawn_eq_model (f : DynFlags) (o : Obst) (hr : o.role = .dynamic) (hw : o.WF)
-    (hu : o.uncInit = false) (hwin : f.tb ≤ f.te) (hp : f.plain) :
-    drawDynamic f o = modelShapes f.tb f.te o := by
-  obtain ⟨p1, p2, p3, p4, p5, p6, p7, p8, p9⟩ := hp
-  by_cases hh : dynHidden f o = true
-  · have h0 := hidden_no_occ_tb f o hr hw hwin hh
-    have h1 := hidden_no_occ f o hr hw hh
-    have h2 : (pyRange (f.tb + 1) f.te).flatMap (fun t => if o.occ.mem t then [Item.occ t] else []) = [] :=
-      flatMap_occ_nil o.occ _ _ (fun t a b => h1 t (by omega) b)
-    simp [drawDynamic, hh, modelShapes, h0, h2]
-  · simp only [Bool.not_eq_true] at hh
-    cases hs : o.pred.isSet with
-    | false =>
-      simp [drawDynamic, hh, modelShapes, iconBlock, occWithInit, p1, p2, p3, p4, p5, p6, p7, p8, p9, hu, hs, hr]
-    | true =>
-      have ht : o.pred.isTraj = false := by
-        cases hpq : o.pred <;> simp [hpq, Pred.isSet, Pred.isTraj] at hs ⊢
-      simp [drawDynamic, hh, modelShapes, iconBlock, occWithInit, p1, p2, p3, p4, p5, p6, p7, p8, p9, hu, hs, hr, ht]
-
-/-- Static obstacles (exactly known position): the occupancy at `time_begin`, which always exists. -/
-theorem C19_static_drawn_eq_model (tb te : Int) (o : Obst) (hr : o.role = .static) (hw : o.WF)
-    (hu : o.uncInit = false) : drawStatic tb o = modelShapes tb te o := by
-  simp only [Obst.WF, hr] at hw
-  simp [drawStatic, occWithInit, modelShapes, TSet.mem, hw, hu, hr]
-
-/-- Environment obstacles: the occupancy at `time_begin`, which always exists. -/
-theorem C19_env_drawn_eq_model (tb te : Int) (o : Obst) (hr : o.role = .env) (hw : o.WF) :
-    drawEnv tb o = modelShapes tb te o := by
-  simp only [Obst.WF, hr] at hw
-  simp [drawEnv, modelShapes, TSet.mem, hw, hr]
-
-/-- Phantom obstacles: the occupancy at `time_begin` if there is one, nothing otherwise. -/
-theorem C19_phantom_drawn_eq_model (f : PhFlags) (o : Obst) (hr : o.role = .phantom) (hp : f.plain) :
-    drawPhantom f o = modelShapes f.tb f.te o := by
-  obtain ⟨p1, p2⟩ := hp
-  simp [drawPhantom, modelShapes, p1, p2, hr]
-
-/-- The parameter groups of all four obstacle roles carry one window `[tb, te)` (what a top-level
-    assignment establishes, `C19_window_everywhere`) and plain flags. -/
-structure Flags.plainAt (f : Flags) (tb te : Int) : Prop where
-  dyn : f.dyn.plain
-  ph : f.ph.plain
-  dynTb : f.dyn.tb = tb
-  dynTe : f.dyn.te = te
-  phTb : f.ph.tb = tb
-  phTe : f.ph.te = te
-  stTb : f.tbStatic = tb
-  envTb : f.tbEnv = tb
-
-/-- **drawn_eq_model** for whole scenarios: any number of obstacles of any role in any order, any window
-    `tb ≤ te`: per obstacle the emitted patches are exactly the prescribed occupancies. -/
-theorem C19_drawn_eq_model (f : Flags) (tb te : Int) (os : List Obst) (hf : f.plainAt tb te) (hwin : tb ≤ te)
-    (hw : ∀ o ∈ os, o.WF) (hu : ∀ o ∈ os, o.uncInit = false) :
-    drawScenario f os = os.map (modelShapes tb te) := by
-  simp only [drawScenario]
-  apply List.map_congr_left
-  intro o ho
-  have w := hw o ho
-  have u := hu o ho
-  cases hr : o.role with
-  | dynamic =>
-    have := C19_dynamic_drawn_eq_model f.dyn o hr w u (by rw [hf.dynTb, hf.dynTe]; exact hwin) hf.dyn
-    simpa [drawObstacle, hr, hf.dynTb, hf.dynTe] using this
-  | static =>
-    have := C19_static_drawn_eq_model f.tbStatic te o hr w u
-    simpa [drawObstacle, hr, hf.stTb] using this
-  | env =>
-    have := C19_env_drawn_eq_model f.tbEnv te o hr w
-    simpa [drawObstacle, hr, hf.envTb] using this
-  | phantom =>
-    have := C19_phantom_drawn_eq_model f.ph o hr hf.ph
-    simpa [drawObstacle, hr, hf.phTb, hf.phTe] using this
-
-/-- "Nothing for an obstacle without occupancy there": no occupancy at `tb` and no set-based prediction
-    (or none with an occupancy inside the window) ⇒ no patch at all. -/
-theorem C19_nothing_without_occupancy (f : Flags) (tb te : Int) (o : Obst) (hf : f.plainAt tb te) (hwin : tb ≤ te)
-    (hw : o.WF) (hu : o.uncInit = false) (h0 : o.occ.mem tb = false)
-    (h1 : o.pred.isSet = true → ∀ t, tb < t → t < te → o.occ.mem t = false) :
-    drawObstacle f o = [] := by
-  have := C19_drawn_eq_model f tb te [o] hf hwin (by simpa using hw) (by simpa using hu)
+/-- … and with the further extras off (`draw_direction`, `draw_initial_state`, `show_label`, which the text does not
+    name but which add a triangle / a state marker / a label) and an exactly known initial position (an uncertain one
+    is drawn as an additional shape), *nothing but* these occupancy patches is emitted. -/
+theorem C19_only_occupancies_drawn (f : Flags) (tb te : Int) (o : Obst) (hf : f.plainAt tb te) (hwin : tb ≤ te)
+    (hw : o.WF) (hu : o.uncInit = false) :
+    drawObstacle f o = (occItems (drawObstacle f o)).map Item.occ := by
+  have := drawn_eq_modelShapes f tb te [o] hf hwin (by simpa using hw) (by simpa using hu)
   simp only [drawScenario, List.map_cons, List.map_nil, List.cons.injEq, and_true] at this
-  rw [this]
-  simp only [modelShapes, h0]
-  by_cases hs : o.role = .dynamic ∧ o.pred.isSet = true
-  · have := flatMap_occ_nil o.occ (tb + 1) te (fun t a b => h1 hs.2 t (by omega) b)
-    simp [hs, this]
-  · simp [hs]
+  rw [this, occItems_modelShapes]
+  unfold modelShapes
+  rw [List.map_append]
+  congr 1
+  · split <;> simp
+  · split
+    · generalize pyRange (tb + 1) te = l
+      induction l with
+      | nil => simp
+      | cons t ts ih => by_cases h : o.occ.mem t = true <;> simp [List.filter_cons, h, ih]
+    · simp
 
-/-- The window end point: with plain flags no occupancy at or after `te` and none before `tb` is drawn. -/
-theorem C19_only_inside_window (f : Flags) (tb te : Int) (os : List Obst) (hf : f.plainAt tb te) (hwin : tb ≤ te)
+/-- Whole scenarios: any number of obstacles of any role in any order; the `i`-th entry of what `draw_scenario`
+    emits belongs to the `i`-th obstacle and consists of exactly its prescribed occupancies, each once, in time order. -/
+theorem C19_scenario_shapes (f : Flags) (tb te : Int) (os : List Obst) (hf : f.plainAt tb te) (hwin : tb ≤ te)
     (hw : ∀ o ∈ os, o.WF) (hu : ∀ o ∈ os, o.uncInit = false) :
-    ∀ l ∈ drawScenario f os, ∀ i ∈ l, ∃ t, i = Item.occ t ∧ tb ≤ t ∧ (t = tb ∨ t < te) := by
-  rw [C19_drawn_eq_model f tb te os hf hwin hw hu]
-  intro l hl i hi
-  simp only [List.mem_map] at hl
-  obtain ⟨o, _, rfl⟩ := hl
-  simp only [modelShapes, List.mem_append] at hi
-  rcases hi with hi | hi
-  · split at hi
-    · simp only [List.mem_singleton] at hi; exact ⟨tb, hi, by omega, Or.inl rfl⟩
-    · simp at hi
-  · split at hi
-    · simp only [List.mem_flatMap] at hi
-      obtain ⟨t, ht, hi⟩ := hi
-      have := (mem_pyRange _ _ _).1 ht
-      split at hi
-      · simp only [List.mem_singleton] at hi; exact ⟨t, hi, by omega, Or.inr this.2⟩
-      · simp at hi
-    · simp at hi
+    (drawScenario f os).length = os.length ∧
+    ∀ (i : Nat) (h : i < os.length), ∃ ts : List Int,
+      (drawScenario f os)[i]'(by simpa [drawScenario] using h) = ts.map Item.occ ∧
+      ts.Pairwise (· < ·) ∧ ∀ t, t ∈ ts ↔ Prescribed tb te os[i] t := by
+  refine ⟨by simp [drawScenario], fun i h => ?_⟩
+  have hm : os[i] ∈ os := List.getElem_mem h
+  refine ⟨occItems (drawObstacle f os[i]), ?_, C19_shapes_iff_prescribed f tb te os[i] hf.toText hwin (hw _ hm)⟩
+  simp only [drawScenario, List.getElem_map]
+  exact C19_only_occupancies_drawn f tb te os[i] hf hwin (hw _ hm) (hu _ hm)
+
+/-- "Nothing for an obstacle without occupancy there": no patch at all iff no step is prescribed — for a dynamic or
+    phantom obstacle outside its horizon; never for a static or environment obstacle (they have an occupancy at `tb`). -/
+theorem C19_nothing_iff_no_occupancy (f : Flags) (tb te : Int) (o : Obst) (hf : f.plainAt tb te) (hwin : tb ≤ te)
+    (hw : o.WF) (hu : o.uncInit = false) :
+    drawObstacle f o = [] ↔ ∀ t, ¬ Prescribed tb te o t := by
+  have h1 := C19_only_occupancies_drawn f tb te o hf hwin hw hu
+  have h2 := (C19_shapes_iff_prescribed f tb te o hf.toText hwin hw).2
+  constructor
+  · intro h t hp
+    have := (h2 t).2 hp
+    rw [h] at this; simp [occItems] at this
+  · intro h
+    rw [h1]
+    have : occItems (drawObstacle f o) = [] := by
+      apply List.eq_nil_iff_forall_not_mem.2
+      intro t ht; exact h t ((h2 t).1 ht)
+    simp [this]
+
+def exInvObst : Obst where
+  role := .dynamic
+  initTs := 2
+  pred := .none
+  occ := ⟨false, [2]⟩
+  uncInit := false
+  stateAt := ⟨false, []⟩
+  uncAt := ⟨false, []⟩
+  sigAt := ⟨false, []⟩
+  rectAt := ⟨false, []⟩
+  iconType := false
+  hasLW := false
+
+def exInvDyn : DynFlags where
+  tb := 2
+  te := 1
+  drawShape := true
+  drawIcon := false
+  drawDirection := false
+  drawSignals := false
+  drawOccupancies := false
+  drawTrajectory := false
+  drawHistory := false
+  histSteps := 0
+  histStepSize := 1
+  drawInitialState := false
+  showLabel := false
+  trajTb := 2
+  trajTe := 1
+  trajContinuous := false
+
+def exInvFlags : Flags := { dyn := exInvDyn, ph := ⟨2, 1, true, false⟩, tbStatic := 2, tbEnv := 2 }
+
+/-- Witness that `time_begin ≤ time_end` cannot be dropped: with the inverted window `[2, 1)` a dynamic obstacle
+    without prediction whose initial time step is 2 has an occupancy at the begin step 2, prescribed by the text, but the
+    early return `initial_state.time_step > time_end` (mp_renderer.py:537) hides it.  An inverted window is not a
+    "time window"; the harness counts such cases as excluded from clause (b). -/
+theorem C19_witness_inverted_window :
+    ¬ (∀ (f : Flags) (tb te : Int) (o : Obst), f.textAt tb te → o.WF →
+        ∀ t, t ∈ occItems (drawObstacle f o) ↔ Prescribed tb te o t) := by
+  intro h
+  have hf : exInvFlags.textAt 2 1 := ⟨⟨rfl, rfl, rfl, rfl, rfl, rfl⟩, ⟨rfl, rfl⟩, rfl, rfl, rfl, rfl, rfl, rfl⟩
+  have hw : exInvObst.WF := by
+    simp only [Obst.WF, exInvObst]
+    intro t ht
+    have : t = 2 := by simpa [TSet.mem] using ht
+    subst this; simp [Pred.isNone]
+  have := (h exInvFlags 2 1 exInvObst hf hw 2).2 ⟨by decide, Or.inl rfl⟩
+  revert this; decide
 
 /-! ### (c) lanelet and planning-problem id filters -/
 
-/-- Without a filter all lanelets are drawn (same order, same multiplicity). -/
-theorem C19_lanelets_drawn_all (ids : List Int) : laneletsDrawn ids none = ids := by
-  simp [laneletsDrawn]
-
-/-- With a filter exactly the selected lanelets of the network are drawn. -/
-theorem C19_lanelets_drawn_selected (ids sel : List Int) (i : Int) :
-    i ∈ laneletsDrawn ids (some sel) ↔ i ∈ ids ∧ i ∈ sel := by
-  simp [laneletsDrawn]
-
-/-- … each as often and in the order in which the network lists it. -/
-theorem C19_lanelets_drawn_sublist (ids : List Int) (d : Option (List Int)) :
-    (laneletsDrawn ids d).Sublist ids := by
-  simp only [laneletsDrawn]; exact List.filter_sublist
-
-/-- The same for the planning problems of a planning-problem set. -/
-theorem C19_problems_drawn (ids : List Int) (d : Option (List Int)) (i : Int) :
-    i ∈ problemsDrawn ids d ↔ i ∈ ids ∧ (d = none ∨ ∃ sel, d = some sel ∧ i ∈ sel) := by
-  cases d <;> simp [problemsDrawn]
+/-- Without a filter all, with a filter exactly the selected lanelets / planning problems are drawn, each as often as
+    the network / the set lists it.  (definitional: `laneletsDrawn` / `problemsDrawn` are the filter of the code,
+    mp_renderer.py:1048 and 1491; documents the model, carries little proof content) -/
+theorem C19_id_filter (ids : List Int) (d : Option (List Int)) (i : Int) :
+    (laneletsDrawn ids d).count i = (if d = none ∨ ∃ sel, d = some sel ∧ i ∈ sel then ids.count i else 0) ∧
+    problemsDrawn ids d = laneletsDrawn ids d ∧ (laneletsDrawn ids d).Sublist ids := by
+  refine ⟨?_, rfl, by simp only [laneletsDrawn]; exact List.filter_sublist⟩
+  cases d with
+  | none => simp [laneletsDrawn]
+  | some sel =>
+    simp only [laneletsDrawn, reduceCtorEq, Option.some.injEq, false_or, exists_eq_left']
+    by_cases h : i ∈ sel
+    · simp only [h, if_true]
+      exact List.count_filter (by simpa using h)
+    · simp only [h, if_false]
+      exact List.count_eq_zero.2 (fun hm => h (by simpa using (List.mem_filter.1 hm).2))
 
 /-! ### (d) totality -/
 
 /-- FULL statement of the totality clause for an implementation `impl` of draw + render (flags and scenario in,
-    patches or an exception class out): it never raises. -/
+    patches or an exception class out): it never raises.  Not proved for the real `MPRenderer`: matplotlib artists,
+    PIL image loading, geometry code and the Agg rasteriser are not modelled; explored by the harness. -/
 def C19_total_full (impl : Flags → List Obst → Res (List (List Item))) : Prop :=
   ∀ f os, ∃ r, impl f os = .ok r
 
-/-- PARTIAL: what is proved is totality of the *selection logic* (the model is a total function: no guard of
-    `draw_dynamic_obstacle` / `draw_phantom_obstacle` / … divides, indexes or dereferences `None`).
-    Missing: `MPRenderer.draw*`/`render` also run geometry code, matplotlib artists, PIL image loading and the
-    Agg rasteriser, none of which is modelled in Lean; that those never raise is a claim about matplotlib and
-    is only *explored* by the harness (parameter lattice × windows × id filters under MPLBACKEND=Agg, every
-    exception an oracle failure `C19/<stage>/raises-…`). -/
-theorem C19_total_partial : C19_total_full (fun f os => .ok (drawScenario f os)) :=
-  fun f os => ⟨drawScenario f os, rfl⟩
+/-- PARTIAL (selection logic only): `drawScenarioC` follows `draw_scenario` and the four obstacle drawers with every
+    read that can fail made explicit — `x.attr` on a possibly-`None` occupancy / prediction / trajectory state,
+    `position[0]` on a position that may be a shape, `math.cos` of an orientation that may be an interval,
+    `final_time_step` of a prediction that may be absent or empty.  For every flag setting and every list of obstacles
+    that are `Readable` (no empty set-based prediction — excluded by the XSD; environment obstacles have an occupancy at
+    every step — `EnvironmentObstacle.occupancy_at_time` always returns one) none of these reads fails, and what is
+    emitted is `drawScenario`.  Missing for `C19_total_full`: everything below the selection logic (matplotlib). -/
+theorem C19_total_selection_partial (f : Flags) (os : List Obst) (h : ∀ o ∈ os, o.Readable) :
+    drawScenarioC f os = .ok (drawScenario f os) :=
+  mapM_ok (drawObstacleC f) (drawObstacle f) os (fun o ho => drawObstacleC_eq f o (h o ho))
 
-/-! Non-vacuity: a dynamic obstacle with a set-based prediction (initial step 2, occupancies 3..5),
-    one with a trajectory, a static one; windows before / inside / after the horizon. -/
+/-- PARTIAL (lanelet network): with the `len(...) > 0` tests the border-vertex collections never concatenate an empty
+    list — for every `draw_ids` (none, empty, unknown ids), every flag combination, every network (also an empty one). -/
+theorem C19_total_net_partial (f : NetFlags) (ls : List LaneletInfo) : ∃ r, drawNetC f ls = .ok r := by
+  unfold drawNetC
+  by_cases h1 : (f.borderVertices && !(leftVerts f ls).isEmpty) = true <;>
+    by_cases h2 : (f.borderVertices && !(rightVerts f ls).isEmpty) = true <;>
+    simp [h1, h2, npConcatenate, bind, Except.bind, pure, Except.pure] <;>
+    simp_all [List.isEmpty_iff]
+
+/-- PARTIAL (traffic-light labels): the local variable `state` is bound whenever it is read, for every list of lights
+    (active / inactive, with / without position) and both values of `show_label`. -/
+theorem C19_total_light_labels_partial (showLabel : Bool) (ls : List LightInfo) :
+    ∃ r, lightLabelsC showLabel ls = .ok r :=
+  lightLabelsGo_ok showLabel ls none
+
+/-! Witnesses that the explicit reads are real (each is the defect repaired by a `fix:` commit, or an input outside the
+    property's quantifier): without its guard the read fails. -/
+
+/-- `position[0]` on an uncertain position (label / icon / state marker before the repairs). -/
+theorem C19_witness_index_shape : anchorUnguarded ⟨true, false, false⟩ = .error .type := by rfl
+
+/-- `np.concatenate([])` with `draw_border_vertices` and `draw_ids = []` before the repair. -/
+theorem C19_witness_unguarded_border :
+    drawNetUnguarded ⟨some [], true, true, true⟩ [⟨10, true⟩] = .error .value := by rfl
+
+/-- `state` unbound for an inactive traffic light with `show_label` before the repair. -/
+theorem C19_witness_unassigned_light_state :
+    lightLabelsGo true false none [⟨true, false, "red"⟩] = .error .other := by rfl
+
+/-- Outside the quantifier (an occupancy set has at least one occupancy, XSD): `final_time_step` of an empty set-based
+    prediction raises `ValueError` in `draw_dynamic_obstacle`; `Readable` excludes it.  Replayed on the real code by
+    corpus/C19/outside_empty_set_prediction.json. -/
+theorem C19_witness_empty_set_prediction (f : DynFlags) (o : Obst) (h : o.pred = .setbEmpty)
+    (h1 : ¬ o.initTs > f.te) : drawDynamicC f o = .error .value := by
+  simp [drawDynamicC, dynHiddenC, h, Pred.isNone, Pred.finalC, h1, bind, Except.bind, pure, Except.pure]
+
+/-- An environment obstacle without occupancy would be dereferenced (`draw_environment_obstacle` has no `None` test);
+    `EnvironmentObstacle.occupancy_at_time` never returns `None`, which is the `Readable` hypothesis. -/
+theorem C19_witness_env_without_occupancy (tb : Int) (o : Obst) (h : o.occ.mem tb = false) :
+    drawEnvC tb o = .error .attr := by
+  simp [drawEnvC, occAtC, h, deref, bind, Except.bind]
+
+/-! ### (a)+(b) end to end: a window set at the top level of the parameter object decides what is drawn -/
+
+/-- From the parameter tree to the patches: for a fully initialised parameter tree `g` whose flags (as the drawing
+    functions read them, `flagsOf`) are those of the text, after `g.time_begin = tb; g.time_end = te` at the top level
+    the occupancy patches `draw_scenario` emits for every obstacle are exactly those prescribed for `[tb, te)`. -/
+theorem C19_top_level_window_drawn (g : Grp) (hi : g.allInit = true) (atb ate : String) (tb te : Int) (f : Flags)
+    (htb : parseInt atb = some tb) (hte : parseInt ate = some te) (hf : flagsOf g = some f)
+    (hd : f.dyn.asText) (hp : f.ph.plain) (hwin : tb ≤ te) (o : Obst) (hw : o.WF) :
+    ∃ f', flagsOf ((g.set "time_begin" (.atom atb)).set "time_end" (.atom ate)) = some f' ∧
+      (occItems (drawObstacle f' o)).Pairwise (· < ·) ∧
+      ∀ t, t ∈ occItems (drawObstacle f' o) ↔ Prescribed tb te o t := by
+  refine ⟨withWindow f tb te, C19_window_reaches_drawing g hi atb ate tb te f htb hte hf, ?_⟩
+  apply C19_shapes_iff_prescribed _ tb te o _ hwin hw
+  exact ⟨hd, hp, rfl, rfl, rfl, rfl, rfl, rfl⟩
+
+/-! Non-vacuity: a parameter tree with every group the selection logic reads (`MPDrawParams` restricted to those
+    groups and fields), obstacles of three kinds, windows before / inside / after the horizon. -/
+def exWin (rest : Fields) : Fields := .atom "time_begin" "0" (.atom "time_end" "200" rest)
+def exGTraj : Grp := .mk true (exWin (.atom "draw_trajectory" "false" (.atom "draw_continuous" "false" .nil)))
+def exGOcc : Grp := .mk true (exWin (.atom "draw_occupancies" "false" .nil))
+def exGHist : Grp := .mk true (exWin (.atom "draw_history" "false" (.atom "steps" "5" (.atom "step_size" "1" .nil))))
+def exGState : Grp := .mk true (exWin (.atom "draw_arrow" "false" .nil))
+def exGDyn : Grp := .mk true (exWin (.atom "draw_shape" "true" (.atom "draw_icon" "false" (.atom "draw_direction" "false"
+  (.atom "show_label" "true" (.atom "draw_signals" "false" (.atom "draw_initial_state" "false"
+  (.grp "state" exGState (.grp "history" exGHist (.grp "occupancy" exGOcc (.grp "trajectory" exGTraj .nil)))))))))))
+def exGPh : Grp := .mk true (exWin (.atom "draw_shape" "true" (.grp "occupancy" exGOcc .nil)))
+def exGPlain : Grp := .mk true (exWin .nil)
+def exParams : Grp := .mk true (exWin (.atom "axis_visible" "true" (.grp "dynamic_obstacle" exGDyn
+  (.grp "static_obstacle" exGPlain (.grp "phantom_obstacle" exGPh (.grp "environment_obstacle" exGPlain .nil))))))
+
 def exNo : TSet := ⟨false, []⟩
-def exSet : Obst where
-  role := .dynamic
-  initTs := 2
-  pred := .setb 5
-  occ := ⟨false, [2, 3, 4, 5]⟩
-  uncInit := false
-  stateAt := exNo
-  uncAt := exNo
-  sigAt := exNo
-  rectAt := exNo
-  iconType := true
-  hasLW := true
-def exTraj : Obst := { exSet with pred := .traj 5, stateAt := ⟨false, [3, 4, 5]⟩ }
-def exStatic : Obst := { exSet with role := .static, pred := .none, occ := ⟨true, []⟩ }
 def exDynFlags (tb te : Int) : DynFlags where
   tb := tb
   te := te
@@ -451,10 +484,35 @@ def exDynFlags (tb te : Int) : DynFlags where
   histStepSize := 1
   drawInitialState := false
   showLabel := false
+  stateArrow := false
   trajTb := tb
   trajTe := te
   trajContinuous := false
 def exFlags (tb te : Int) : Flags := { dyn := exDynFlags tb te, ph := ⟨tb, te, true, false⟩, tbStatic := tb, tbEnv := tb }
+
+example : exParams.allInit = true := by decide
+-- every read of `flagsOf` succeeds on the example tree (all of `windowPaths` and all flag paths exist) …
+example : flagsOf exParams = some { exFlags 0 200 with dyn := { exDynFlags 0 200 with showLabel := true } } := by decide
+-- … and after the top-level assignment all windows are [3, 5)
+example : flagsOf ((exParams.set "time_begin" (.atom "3")).set "time_end" (.atom "5"))
+    = some { exFlags 3 5 with dyn := { exDynFlags 3 5 with showLabel := true } } := by decide
+example : parseInt "3" = some 3 ∧ parseInt "5" = some 5 ∧ parseInt "-12" = some (-12) ∧ parseInt "1e3" = none := by decide
+
+def exSet : Obst where
+  role := .dynamic
+  initTs := 2
+  pred := .setb 5
+  occ := ⟨false, [2, 3, 4, 5]⟩
+  uncInit := false
+  stateAt := exNo
+  uncAt := exNo
+  sigAt := exNo
+  rectAt := exNo
+  iconType := true
+  hasLW := true
+def exTraj : Obst := { exSet with pred := .traj 5, stateAt := ⟨false, [3, 4, 5]⟩ }
+def exStatic : Obst := { exSet with role := .static, pred := .none, occ := ⟨true, []⟩ }
+def exEnv : Obst := { exSet with role := .env, pred := .none, occ := ⟨true, []⟩ }
 
 example : exSet.WF := by
   simp only [Obst.WF, exSet, TSet.mem, Bool.false_or, List.contains_eq_mem, decide_eq_true_eq]
@@ -462,14 +520,28 @@ example : exSet.WF := by
   simp only [List.mem_cons, List.not_mem_nil, or_false] at h
   rcases h with rfl | rfl | rfl | rfl <;> simp [Pred.isNone, Pred.final]
 example : exStatic.WF := by simp [Obst.WF, exStatic, exSet]
+example : exSet.Readable ∧ exEnv.Readable := by simp [Obst.Readable, exSet, exEnv]
 example (tb te : Int) : (exFlags tb te).plainAt tb te :=
   ⟨by simp [exFlags, exDynFlags, DynFlags.plain], by simp [exFlags, PhFlags.plain], rfl, rfl, rfl, rfl, rfl, rfl⟩
 -- inside the horizon: the occupancy at time_begin and the later steps of the window, not the end point
 example : drawScenario (exFlags 3 5) [exSet, exTraj, exStatic] = [[.occ 3, .occ 4], [.occ 3], [.occ 3]] := by decide
+example : Prescribed 3 5 exSet 4 ∧ ¬ Prescribed 3 5 exSet 5 ∧ ¬ Prescribed 3 5 exTraj 4 := by
+  refine ⟨⟨by decide, Or.inr ⟨rfl, rfl, by decide, by decide⟩⟩, ?_, ?_⟩
+  · rintro ⟨_, h | ⟨_, _, _, h⟩⟩ <;> revert h <;> decide
+  · rintro ⟨_, h | ⟨_, h, _, _⟩⟩ <;> revert h <;> decide
 -- window before the initial time step but reaching into the horizon: only the set-based later steps
 example : drawScenario (exFlags 0 4) [exSet, exTraj, exStatic] = [[.occ 2, .occ 3], [], [.occ 0]] := by decide
 -- window after the horizon: nothing for the dynamic obstacles
 example : drawScenario (exFlags 6 9) [exSet, exTraj, exStatic] = [[], [], [.occ 6]] := by decide
+-- the checked form on a setting with icon, label and state marker: anchors and readings are chosen, nothing fails
+def exRichDyn : DynFlags :=
+  { exDynFlags 3 5 with drawIcon := true, showLabel := true, drawInitialState := true, stateArrow := true }
+def exRichObst : Obst := { exTraj with uncAt := ⟨false, [3]⟩, orientIntAt := ⟨false, [3]⟩ }
+example : drawScenarioC { exFlags 3 5 with dyn := exRichDyn } [exRichObst, exEnv]
+    = .ok [[.icon .center .mid, .label .center, .state .center (some (.mid, .exact))], [.occ 3]] := by decide
 example : laneletsDrawn [10, 11, 20] (some [20, 10, 99]) = [10, 20] := by decide
+example : drawNetC ⟨some [], true, true, true⟩ [⟨10, true⟩] = .ok ⟨[], 0⟩ := by rfl
+example : drawNetC ⟨some [20], true, false, false⟩ [⟨10, true⟩, ⟨20, false⟩] = .ok ⟨[20], 1⟩ := by rfl
+example : lightLabelsC true [⟨true, true, "red"⟩, ⟨false, true, "green"⟩, ⟨true, false, "red"⟩] = .ok ["red", "inactive"] := by rfl
 
 end CR.Draw
